@@ -41,8 +41,9 @@ def main(argv):
         pid = argv[2]
         print(json.dumps(digests(pid, seed, n, int(argv[3]))))
         return 0
-    bad = 0
+    total_bad = 0
     for pid in props():
+        bad = 0
         stride = 7919
         a = digests(pid, seed, n, stride)
         b = digests(pid, seed, n, stride)
@@ -67,7 +68,8 @@ def main(argv):
                 print(f"SELFTEST-FAIL {pid}: verdicts differ under PYTHONHASHSEED={hs}")
                 bad += 1
         print(f"selftest {pid}: {len(a)} plans x 4 executions, digests {'agree' if not bad else 'DISAGREE'}")
-    return 1 if bad else 0
+        total_bad += bad
+    return 1 if total_bad else 0
 
 
 if __name__ == "__main__":
